@@ -5,6 +5,7 @@ import (
 	"flag"
 	"fmt"
 	"os"
+	"runtime/debug"
 	"time"
 )
 
@@ -44,6 +45,7 @@ func main() {
 	fs.Parse(os.Args[2:])
 	tierThorough = *thorough
 	cryptorand.Reader = globalDev{}
+	debug.SetPanicOnFault(true)
 	switch mode {
 	case "io":
 		os.Exit(ioMain(ioArgs{prop: *prop, config: *config, seed: *seed, worker: *worker, eidx: *eidx, en: *en, minimise: *minimise, from: *from, to: *to,
